@@ -68,7 +68,7 @@ def nontest_lines(path):
     ok = [True] * len(lines)
     i = 0
     while i < len(lines):
-        if lines[i].strip().startswith("#[cfg(test)]"):
+        if lines[i].strip().startswith("#[cfg(test)]") or lines[i].strip().startswith("#[cfg(all(test"):
             j = i + 1
             # attribute applies to the next item
             while j < len(lines) and lines[j].strip().startswith("#["):
@@ -77,7 +77,10 @@ def nontest_lines(path):
                 depth = 0
                 k = j
                 while k < len(lines):
-                    depth += lines[k].count("{") - lines[k].count("}")
+                    code = re.sub(r'"(\\.|[^"\\])*"', '""', lines[k])       # string literals
+                    code = re.sub(r"'(\\.|[^'\\])'", "''", code)          # char literals
+                    code = code.split("//")[0]
+                    depth += code.count("{") - code.count("}")
                     if depth <= 0 and k > j or (k == j and depth == 0):
                         break
                     k += 1
@@ -260,7 +263,8 @@ def do_check():
     revert(rwt)
     sh(["rsync", "-a", "--delete", "--exclude", ".git", "--exclude", "replays", "--exclude", "work", VERIF + "/", vcopy + "/"])
     ct = os.path.join(vcopy, "harness", "Cargo.toml")
-    open(ct, "w").write(open(ct).read().replace('path = "/repo"', 'path = "%s"' % rwt))
+    txt = open(os.path.join(VERIF, "harness", "Cargo.toml")).read().replace('path = "/repo"', 'path = "%s"' % rwt)
+    open(ct, "w").write(txt)
     env = dict(os.environ, VERIF_REPO=rwt, CARGO_NET_OFFLINE="true")
     surv = [json.loads(l) for l in open(os.path.join(MT, "survivors.jsonl"))]
     rp = os.path.join(MT, "results.jsonl")
